@@ -283,9 +283,13 @@ class HFile:
     def __init__(self, path, content, pos, mode, closed=False, tail=None):
         self.path, self.content, self.pos, self.mode, self.closed = path, content, pos, mode, closed
         self.tail = tail if tail is not None else content
+        # buffered writer: `base` = what the file held at the last flush, `pending` = bytes written since (None: nothing pending)
+        self.base, self.pending = None, None
 
     def clone(self):
-        return HFile(self.path, self.content, self.pos, self.mode, self.closed, self.tail)
+        h = HFile(self.path, self.content, self.pos, self.mode, self.closed, self.tail)
+        h.base, h.pending = self.base, self.pending
+        return h
 
 
 class HHash:
